@@ -16,7 +16,12 @@ Instants == {"deadline", "tick3", "tick40"}
 Trees == {[depth |-> 0, form |-> "none", body |-> "none"]}
          \cup [depth : 1..MaxDepth, form : SpawnForms, body : CloneBodies]
 InstantsFor(m) == IF m \in Blocking THEN {"deadline", "tick3"} ELSE Instants
-Scenarios == UNION {{[main |-> m, tree |-> t, at |-> a] : t \in Trees, a \in InstantsFor(m)} : m \in Mains}
+\* one VM used for two runs under the same context, which is done before the second run starts: cancelled while
+\* the VM was idle, or during the first run (VMRun!Start arms a watcher for EVERY run, also when its context is done)
+ReuseMains == {"for", "forrange", "recursion", "eachcb", "sortedcb", "recv", "sendfull", "sleep", "wait"}
+ReuseScenarios == {[main |-> m, tree |-> [depth |-> 0, form |-> "none", body |-> "none"], at |-> a] :
+                     m \in ReuseMains, a \in {"reuse_idle", "reuse_during"}}
+Scenarios == UNION {{[main |-> m, tree |-> t, at |-> a] : t \in Trees, a \in InstantsFor(m)} : m \in Mains} \cup ReuseScenarios
 Expected(s) == [returns |-> TRUE, err |-> "ctxerr", ticks_after_return |-> 0]
 VARIABLE s
 Init == s \in Scenarios
